@@ -460,4 +460,36 @@ Section Codec.
     map (fun p => (fst p, match snd p with GField f => fields f | GConst s => Some s | _ => None end)) w.
   Definition read_attr (attrs : list (string * option string)) (a : string) : option string :=
     match assoc a attrs with Some v => v | None => None end.
+
+  (* ---------------- a network as a set of constructs, a file as a set of nodes *)
+  Record construct := { c_kind : string; c_inst : bool; c_attrs : string -> option string; c_rows : list trow }.
+  Record node := { n_kind : string; n_inst : bool; n_attrs : list (string * option string);
+                   n_names : list (option string); n_cells : list (list F) }.
+  (* what the property compares of a construct: its kind, the values of the fields the group attributes carry, its rows *)
+  Definition csem := (string * list (string * option string) * list (list F))%type.
+
+  Definition attr_fields (kind : string) : list string := map (fun x => snd (fst x)) (gspec kind).
+
+  Definition write_construct (g : h5gen) (c : construct) : option node :=
+    match select_table g (c_kind c) (c_rows c) with
+    | Some wt =>
+        match write_rows wt (c_rows c) with
+        | Some cells => Some {| n_kind := c_kind c; n_inst := c_inst c; n_attrs := write_attrs (wt_gattrs wt) (c_attrs c);
+                                n_names := wt_names wt; n_cells := cells |}
+        | None => None end
+    | None => None end.
+
+  Definition load_node (g : h5gen) (n : node) : option csem :=
+    match load_rows (n_kind n) (n_inst n) (n_names n) (reader_of g (n_kind n)) (n_cells n) with
+    | Some out => Some (n_kind n, map (fun x => (snd (fst x), read_attr (n_attrs n) (fst (fst x)))) (gspec (n_kind n)), out)
+    | None => None end.
+
+  Definition sem32_construct (c : construct) : csem :=
+    (c_kind c, map (fun f => (f, c_attrs c f)) (attr_fields (c_kind c)),
+     sem_rows (c_kind c) (map (fun r => sem32_of (c_kind c) (snd r)) (c_rows c))).
+
+  (* PyTables hands the children of a group back in name order: some rearrangement `order` of what was written *)
+  Variable order : list node -> list node.
+  Definition write_net (g : h5gen) (cs : list construct) : option (list node) := all_some (map (write_construct g) cs).
+  Definition load_net (g : h5gen) (ns : list node) : option (list csem) := all_some (map (load_node g) (order ns)).
 End Codec.
